@@ -288,3 +288,117 @@ for c in ("Add", "Maximum"):
       "replayed": "Add([(QuantizedBits bits=8,int=0), (QuantizedBits "
                   "bits=8,int=7)]).output -> bits 9, int_bits 8, i.e. 0 "
                   "fractional bits although the first operand has 7"}
+
+# ---------------------------------------------------------------------- C19
+_QU = "qkeras/qtools/qtools_util.py::get_operation_count"
+_ES = "qkeras/estimate.py::extract_model_operations"
+_QE = "qkeras/qtools/qenergy/qenergy.py::energy_estimate"
+TRIAGE[("C19", "R1", _QU, "count:AveragePooling2D")] = {
+    "what_fails": "the pooling arm multiplies the pool area by the output "
+                  "channels only; the output spatial positions are missing",
+    "replayed": "get_operation_count(AveragePooling2D((2,2)), (None,8,8,3)) "
+                "-> 12, the layer performs 4*4*3*4 = 192 window additions"}
+TRIAGE[("C19", "R1", _QU, "count:QAveragePooling2D")] = {
+    "what_fails": "QAveragePooling2D is not in the pooling class list of "
+                  "get_operation_count, so its count defaults to 0",
+    "replayed": "get_operation_count(QAveragePooling2D((2,2)), (None,8,8,3))"
+                " -> 0 (prints 'operation count ... is defaulted to 0')"}
+TRIAGE[("C19", "R1", _QU, "count:QDepthwiseConv2DBatchnorm")] = {
+    "what_fails": "QDepthwiseConv2DBatchnorm is in none of the class lists of "
+                  "get_operation_count (the depthwise list has only "
+                  "QDepthwiseConv2D/DepthwiseConv2D), so the folded layer's "
+                  "count defaults to 0",
+    "replayed": "argued from the class lists in get_operation_count (the "
+                "folded layer cannot be built under the pinned Keras 3)"}
+for c in ("QSeparableConv1D", "QSeparableConv2D"):
+  TRIAGE[("C19", "R1", _ES, "count:" + c)] = {
+      "what_fails": "the pointwise term of the separable convolution is "
+                    "out_spatial*C_out; a 1x1 convolution performs "
+                    "out_spatial*C_out*C_in multiply-accumulates",
+      "replayed": "argued from the expression in the %s arm of "
+                  "extract_model_operations" % c}
+for c in ("AveragePooling2D", "AvgPool2D", "GlobalAveragePooling2D",
+          "GlobalAvgPool2D"):
+  TRIAGE[("C19", "R2", _QE, "key-not-written:%s:accumulator" % c)] = {
+      "status": "fixed", "commit": "342c2b7",
+      "what_fails": "energy_estimate read layer_item['accumulator'] for "
+                    "average-pooling layers while the data type map stores "
+                    "'pool_sum_accumulator': get_val returned None and "
+                    "accumulator.output raised AttributeError",
+      "replayed": "by reading both dictionaries; the upstream tests "
+                  "(qtools_model_test / qpooling_test) pin the writer key "
+                  "'pool_sum_accumulator'"}
+_BNK = ("beta_quantizer,gamma_quantizer,internal_divide_quantizer,"
+        "internal_multiplier,mean_quantizer,variance_quantizer")
+for c in ("BatchNormalization", "QBatchNormalization"):
+  TRIAGE[("C19", "R2", _QE, "key-not-written:%s:%s" % (c, _BNK))] = {
+      "what_fails": "for a batch-norm layer marked enable_bn_fusing the data "
+                    "type map stores only input_quantizer_list / "
+                    "output_quantizer / output_shapes / operation_count, "
+                    "while energy_estimate and parameter_read_energy "
+                    "subscript layer_item['gamma_quantizer'], "
+                    "['internal_divide_quantizer'], ... unconditionally "
+                    "(KeyError)",
+      "replayed": "argued from the two dictionary literals in the batch-norm "
+                  "arm of generate_layer_data_type_map and the subscripts in "
+                  "qenergy.py"}
+for c in ("QAveragePooling2D", "QGlobalAveragePooling2D", "QConv2DBatchnorm",
+          "QDepthwiseConv2DBatchnorm"):
+  TRIAGE[("C19", "R3", _QE, "no-op-energy-arm:" + c)] = {
+      "what_fails": "%s layers get a data-type entry (with multiplier / "
+                    "accumulator types) but no arm of energy_estimate "
+                    "matches the class, so their op_cost is always 0" % c,
+      "replayed": "argued from the class lists of the op-energy dispatch in "
+                  "energy_estimate"}
+
+# ---------------------------------------------------------------------- C20
+_GQ = "qkeras/autoqkeras/autoqkeras_internal.py::AutoQKHyperModel._get_quantizer"
+_QM = "qkeras/autoqkeras/autoqkeras_internal.py::AutoQKHyperModel.quantize_model"
+_C20_REPLAY = ("the method body of _get_quantizer, extracted from the real "
+               "source and run on a tagged configuration (limit LSTM:"
+               "[4,8,2,16]): head 'L_recurrent_kernel' and "
+               "'L_pointwise_kernel' are offered ['kernel_2','kernel_4']; "
+               "'kernel_L_bias' is offered the kernel table; "
+               "'bias_L_activation' the bias table")
+for tag in ("pointwise_kernel", "recurrent_kernel"):
+  TRIAGE[("C20", "R2", _GQ, "role-limit:" + tag)] = {
+      "what_fails": "the test '\"kernel\" in head' precedes and subsumes "
+                    "'\"%s\" in head': the %s quantizer is drawn from the "
+                    "kernel table with the kernel limit (index 0) instead of "
+                    "its own table and limit index 2" % (tag, tag),
+      "replayed": _C20_REPLAY}
+for tag in ("activation@layer-name-contains-kernel",
+            "bias@layer-name-contains-kernel",
+            "pointwise_kernel@layer-name-contains-kernel",
+            "recurrent_activation@layer-name-contains-kernel",
+            "recurrent_kernel@layer-name-contains-kernel",
+            "activation@layer-name-contains-bias",
+            "pointwise_kernel@layer-name-contains-bias",
+            "recurrent_activation@layer-name-contains-bias",
+            "recurrent_kernel@layer-name-contains-bias"):
+  TRIAGE[("C20", "R2", _GQ, "role-limit:" + tag)] = {
+      "what_fails": "the tensor role is recognised by substring tests on "
+                    "layer.name + '_' + role, so a layer whose own name "
+                    "contains 'kernel' or 'bias' gets every role resolved to "
+                    "that table and limit index",
+      "replayed": _C20_REPLAY}
+for cls, key in (("Dense", "activation"), ("Conv2D", "activation"),
+                 ("SeparableConv2D", "activation"),
+                 ("SeparableConv2D", "depthwise_quantizer"),
+                 ("SeparableConv2D", "pointwise_quantizer"),
+                 ("DepthwiseConv2D", "activation"), ("LSTM", "activation"),
+                 ("LSTM", "recurrent_activation")):
+  TRIAGE[("C20", "R5", _QM,
+          "key-ignored-by-model_quantize:%s:%s" % (cls, key))] = {
+      "what_fails": "AutoQKeras stores the sampled quantizer under %r for "
+                    "%s layers, but model_quantize never reads that key for "
+                    "this class (it reads activation_quantizer / "
+                    "recurrent_activation_quantizer / kernel_quantizer), so "
+                    "the trial model does not use the sampled quantizer" %
+                    (key, cls),
+      "replayed": "model_quantize(model, {'dense': {'kernel_quantizer': "
+                  "'quantized_bits(4)', 'activation': 'quantized_relu(2)'}}, "
+                  "4) yields activation quantized_relu(4) (the "
+                  "activation_bits fallback), replayed in the design phase; "
+                  "the other keys by reading the get_config(...) calls of "
+                  "model_quantize"}
